@@ -88,7 +88,7 @@ func newFnEnc(eng *Engine, fn *ssa.Function, name string, ctr *FuncContract) *fn
 		closures: map[ssa.Value]*ssa.MakeClosure{},
 		reach:   map[*ssa.BasicBlock]Term{}, outSt: map[*ssa.BasicBlock]*state{}, edge: map[[2]int]Term{},
 		oblNames: map[string]int{}, assumptions: map[string]bool{}, strLits: map[string]Term{},
-		ghostVars: map[string]Term{}, paramVal: map[string]SVal{}, implFns: map[string]*types.Interface{}, backGoals: map[int][]*backEdgeGoals{}, embIDs: map[string]int{}, invUse: map[string]bool{}, acquired: map[string]*state{},
+		ghostVars: map[string]Term{}, paramVal: map[string]SVal{}, implFns: map[string]*types.Interface{}, backGoals: map[int][]*backEdgeGoals{}, embIDs: map[string]int{}, invUse: map[string]bool{}, acquired: map[string]*state{}, fieldGuardCount: map[string]int{},
 	}
 	if e.pkg == "" && fn.Pkg != nil {
 		e.pkg = fn.Pkg.Pkg.Path()
@@ -157,6 +157,7 @@ func (e *fnEnc) run() (err error) {
 		v := e.declare("fv."+p.Name(), e.sortOf(p.Type()))
 		e.vals[p] = v
 		e.assert(e.existsAt(v, p.Type(), st.alloc))
+		e.assert(lt(intLit(0), v)) // the address of a captured variable is never nil
 		// a free variable is a pointer to the captured variable
 		e.paramVal[p.Name()] = SVal{t: v, typ: p.Type(), fvPtr: true}
 	}
@@ -461,6 +462,10 @@ func (e *fnEnc) encodeBlock(b *ssa.BasicBlock) {
 		env = e.envAt(b, nphi, st)
 		for _, cl := range e.loopClauses(li.ord, "loop-invariant") {
 			e.assert(imp(reach, e.evalBool(cl.E, env)))
+		}
+		for _, cl := range e.loopClauses(li.ord, "loop-assume") {
+			e.assert(imp(reach, e.evalBool(cl.E, env)))
+			e.assume("assumed at the head of loop " + fmt.Sprint(li.ord) + " of " + e.shortFuncName() + " (not checked): " + cl.Text)
 		}
 		// implicit invariant: the function's frame holds at the loop head
 		// (checked at exit like any other path; here it is assumed for the havocked
